@@ -26,8 +26,10 @@ def set_harness(name, restrict=None, flags=None):
             setattr(w, k, v)
         a = w.obj(ta, "a")
         b = w.obj(tb, "b")
+        before = (w.snapshot_opaque(a), w.snapshot_opaque(b))
         out = vc.call(getattr(I, name), a, b)
         w.ensure_intersection(out, a, b, CI.RESULT_KINDS[name], label=name)
+        vc.ensure("frame: operands unchanged (no attribute rebound)", (w.snapshot_opaque(a), w.snapshot_opaque(b)) == before)
 
     return h
 
